@@ -36,6 +36,8 @@ type lexRoles struct {
 	spanT    *types.Named
 	until    *types.Func
 	preds    map[*types.Func]runeSet // pure rune predicates (util.IsDigit ...)
+	recvVars   map[types.Object]bool          // receiver variables of the lexer type's methods
+	desugared  map[*ast.FuncDecl]*ast.BlockStmt // condition-desugared bodies
 }
 
 type lvKind int
@@ -421,6 +423,14 @@ func discoverLexRoles(c *Ctx) *lexRoles {
 			r.until = locT.Method(i)
 		}
 	}
+	r.recvVars = map[types.Object]bool{}
+	for _, fd := range AllFuncDecls(p) {
+		if fd.Recv != nil && recvTypeName(fd.Recv.List[0].Type) == "Lexer" && len(fd.Recv.List[0].Names) > 0 {
+			if o := p.TypesInfo.Defs[fd.Recv.List[0].Names[0]]; o != nil {
+				r.recvVars[o] = true
+			}
+		}
+	}
 	// rune predicates of lexer/util
 	r.loadPreds(c)
 	return r
@@ -710,7 +720,7 @@ func (e *lexEval) fieldOfSelf(x ast.Expr) *types.Var {
 		return nil
 	}
 	id, ok := ast.Unparen(sel.X).(*ast.Ident)
-	if !ok || e.r.info.Uses[id] != e.recv {
+	if !ok || !e.isSelf(e.r.info.Uses[id]) {
 		return nil
 	}
 	fv, _ := e.r.info.Uses[sel.Sel].(*types.Var)
@@ -731,7 +741,7 @@ func (e *lexEval) eval(s *lexState, x ast.Expr) lv {
 			return lv{k: lvNil}
 		}
 		if obj := info.Uses[t]; obj != nil {
-			if obj == e.recv {
+			if e.isSelf(obj) {
 				return lv{k: lvLexer}
 			}
 			if v, ok := s.env[obj]; ok {
@@ -873,4 +883,197 @@ func subsetOf(a, b runeSet) bool {
 		}
 	}
 	return true
+}
+
+
+// isSelf: the receiver of the walked function, or the receiver of any other method of the
+// lexer type (predicate helpers are inlined into conditions; all receivers denote one lexer).
+func (e *lexEval) isSelf(obj types.Object) bool {
+	if obj == nil {
+		return false
+	}
+	if obj == e.recv {
+		return true
+	}
+	return e.r.recvVars[obj]
+}
+
+// ---------------------------------------------------------------------
+// condition desugaring: calls of parameterless boolean helper methods of the lexer
+// (`self.atEnd()`) and boolean locals bound in an if-initialiser (`if ok := c; ok`) are
+// replaced by the condition they stand for, so that the path walker decomposes them into
+// atoms over the cursor like an inline condition. Only conditions are rewritten; statements
+// are shared with the original tree.
+
+func (r *lexRoles) desugar(fd *ast.FuncDecl) *ast.BlockStmt {
+	if r.desugared == nil {
+		r.desugared = map[*ast.FuncDecl]*ast.BlockStmt{}
+	}
+	if b, ok := r.desugared[fd]; ok {
+		return b
+	}
+	b := r.dsBlock(fd.Body, map[types.Object]ast.Expr{})
+	r.desugared[fd] = b
+	return b
+}
+
+func (r *lexRoles) dsBlock(b *ast.BlockStmt, binds map[types.Object]ast.Expr) *ast.BlockStmt {
+	if b == nil {
+		return nil
+	}
+	out := &ast.BlockStmt{Lbrace: b.Lbrace, Rbrace: b.Rbrace}
+	for _, s := range b.List {
+		out.List = append(out.List, r.dsStmt(s, binds))
+	}
+	return out
+}
+
+func (r *lexRoles) dsStmt(s ast.Stmt, binds map[types.Object]ast.Expr) ast.Stmt {
+	switch x := s.(type) {
+	case *ast.BlockStmt:
+		return r.dsBlock(x, binds)
+	case *ast.LabeledStmt:
+		c := *x
+		c.Stmt = r.dsStmt(x.Stmt, binds)
+		return &c
+	case *ast.IfStmt:
+		c := *x
+		local := binds
+		init := x.Init
+		// if ok := <bool expr>; … : the local stands for the expression inside this statement
+		if as, ok := x.Init.(*ast.AssignStmt); ok && as.Tok == token.DEFINE && len(as.Lhs) == 1 && len(as.Rhs) == 1 {
+			if id, ok := as.Lhs[0].(*ast.Ident); ok {
+				if obj := r.info.Defs[id]; obj != nil {
+					if bt, ok := obj.Type().Underlying().(*types.Basic); ok && bt.Kind() == types.Bool {
+						local = map[types.Object]ast.Expr{}
+						for k, v := range binds {
+							local[k] = v
+						}
+						local[obj] = as.Rhs[0]
+						init = nil
+					}
+				}
+			}
+		}
+		c.Init = init
+		c.Cond = r.dsExpr(x.Cond, local, 0)
+		c.Body = r.dsBlock(x.Body, local)
+		if x.Else != nil {
+			c.Else = r.dsStmt(x.Else, local)
+		}
+		return &c
+	case *ast.ForStmt:
+		c := *x
+		if x.Cond != nil {
+			c.Cond = r.dsExpr(x.Cond, binds, 0)
+		}
+		c.Body = r.dsBlock(x.Body, binds)
+		return &c
+	case *ast.RangeStmt:
+		c := *x
+		c.Body = r.dsBlock(x.Body, binds)
+		return &c
+	case *ast.SwitchStmt:
+		c := *x
+		nb := &ast.BlockStmt{Lbrace: x.Body.Lbrace, Rbrace: x.Body.Rbrace}
+		for _, cl := range x.Body.List {
+			cc := *(cl.(*ast.CaseClause))
+			if x.Tag == nil {
+				var list []ast.Expr
+				for _, e := range cc.List {
+					list = append(list, r.dsExpr(e, binds, 0))
+				}
+				cc.List = list
+			}
+			var body []ast.Stmt
+			for _, st := range cc.Body {
+				body = append(body, r.dsStmt(st, binds))
+			}
+			cc.Body = body
+			nb.List = append(nb.List, &cc)
+		}
+		c.Body = nb
+		return &c
+	}
+	return s
+}
+
+func (r *lexRoles) dsExpr(e ast.Expr, binds map[types.Object]ast.Expr, depth int) ast.Expr {
+	if depth > 6 {
+		return e
+	}
+	switch x := e.(type) {
+	case *ast.ParenExpr:
+		return &ast.ParenExpr{Lparen: x.Lparen, X: r.dsExpr(x.X, binds, depth), Rparen: x.Rparen}
+	case *ast.UnaryExpr:
+		if x.Op == token.NOT {
+			return &ast.UnaryExpr{OpPos: x.OpPos, Op: x.Op, X: r.dsExpr(x.X, binds, depth)}
+		}
+	case *ast.BinaryExpr:
+		if x.Op == token.LAND || x.Op == token.LOR {
+			return &ast.BinaryExpr{X: r.dsExpr(x.X, binds, depth), OpPos: x.OpPos, Op: x.Op, Y: r.dsExpr(x.Y, binds, depth)}
+		}
+	case *ast.Ident:
+		if rep, ok := binds[r.info.Uses[x]]; ok {
+			return &ast.ParenExpr{X: r.dsExpr(rep, binds, depth+1)}
+		}
+	case *ast.CallExpr:
+		if len(x.Args) != 0 {
+			return e
+		}
+		fn := CalleeOf(r.info, x)
+		if fn == nil {
+			return e
+		}
+		sig, _ := fn.Type().(*types.Signature)
+		if sig == nil || sig.Recv() == nil || recvNamed(sig.Recv().Type()) != r.lexerT || sig.Results().Len() != 1 {
+			return e
+		}
+		if bt, ok := sig.Results().At(0).Type().Underlying().(*types.Basic); !ok || bt.Kind() != types.Bool {
+			return e
+		}
+		fd := FuncDecl(r.pkg, "Lexer", fn.Name())
+		if fd == nil || fd.Body == nil {
+			return e
+		}
+		if pe := r.predExpr(fd, depth+1); pe != nil {
+			return &ast.ParenExpr{X: pe}
+		}
+	}
+	return e
+}
+
+// predExpr: the boolean expression a side-effect-free predicate method computes:
+// { if C1 { return K1 }; …; return E }  ≡  K-folded chain.
+func (r *lexRoles) predExpr(fd *ast.FuncDecl, depth int) ast.Expr {
+	n := len(fd.Body.List)
+	if n == 0 {
+		return nil
+	}
+	last, ok := fd.Body.List[n-1].(*ast.ReturnStmt)
+	if !ok || len(last.Results) != 1 {
+		return nil
+	}
+	res := r.dsExpr(last.Results[0], map[types.Object]ast.Expr{}, depth)
+	for i := n - 2; i >= 0; i-- {
+		ifs, ok := fd.Body.List[i].(*ast.IfStmt)
+		if !ok || ifs.Init != nil || ifs.Else != nil || len(ifs.Body.List) != 1 {
+			return nil
+		}
+		ret, ok := ifs.Body.List[0].(*ast.ReturnStmt)
+		if !ok || len(ret.Results) != 1 {
+			return nil
+		}
+		k, ok := ast.Unparen(ret.Results[0]).(*ast.Ident)
+		if !ok || (k.Name != "true" && k.Name != "false") {
+			return nil
+		}
+		cond := &ast.ParenExpr{X: r.dsExpr(ifs.Cond, map[types.Object]ast.Expr{}, depth)}
+		if k.Name == "true" {
+			res = &ast.BinaryExpr{X: cond, Op: token.LOR, Y: &ast.ParenExpr{X: res}}
+		} else {
+			res = &ast.BinaryExpr{X: &ast.UnaryExpr{Op: token.NOT, X: cond}, Op: token.LAND, Y: &ast.ParenExpr{X: res}}
+		}
+	}
+	return res
 }
